@@ -128,6 +128,7 @@ func (db *DB) verifyAndSyncWithExecutor(ctx context.Context, checkpointing bool,
 	}
 	// an arbitrary successful copy: the synced offset is some frame boundary
 	frames := int64(vx.Range("copiedFrames", 0, 3))
+	vxProtoLog = append(vxProtoLog, vxProtoEvent{kind: "copy", frames: frames, lockHeld: vxWriteLockHeld()})
 	off := WALHeaderSize + frames*int64(WALFrameHeaderSize+db.pageSize)
 	return syncResult{origWALSize: off, newWALSize: off, synced: vx.Bool("copiedSomething"), syncedToWALEnd: true}, nil
 }
@@ -140,8 +141,39 @@ func (db *DB) sync(ctx context.Context, checkpointing bool, exec *syncExecutor, 
 	if vx.Fault("sqlfault:snapshotFails") {
 		return syncResult{}, errors.New("vx: boundary snapshot failed")
 	}
+	vxProtoLog = append(vxProtoLog, vxProtoEvent{kind: "snapshot", lockHeld: vxWriteLockHeld()})
 	off := int64(WALHeaderSize + WALFrameHeaderSize + db.pageSize)
 	return syncResult{origWALSize: off, newWALSize: off, synced: true, syncedToWALEnd: true}, nil
+}
+
+// ---- the checkpoint protocol as a sequence of observable steps ---------------
+
+// vxProtoEvent is one step of litestream's checkpoint protocol as the
+// environment sees it: a WAL copy, a boundary snapshot, or the checkpoint PRAGMA,
+// each with whether litestream held the database's write lock at that moment (a
+// transaction that executed the _litestream_lock insert and is still open).
+type vxProtoEvent struct {
+	kind     string // "copy", "snapshot", "ckpt"
+	frames   int64  // copy: frames the copy had reached
+	lockHeld bool
+}
+
+var (
+	vxProtoLog  []vxProtoEvent
+	vxSQLEnvCur *vxSQLEnv
+)
+
+func vxWriteLockHeld() bool {
+	e := vxSQLEnvCur
+	if e == nil {
+		return false
+	}
+	for id := range e.lockTx {
+		if e.open[id] {
+			return true
+		}
+	}
+	return false
 }
 
 // ---- the SQL environment ---------------------------------------------------
@@ -216,6 +248,7 @@ func (e *vxSQLEnv) handle(ev vx.SQLEvent) vx.SQLResult {
 	case ev.SQL == `PRAGMA page_size;`:
 		return vx.SQLResult{Ints: []int64{e.pageSize}}
 	case strings.HasPrefix(ev.SQL, `PRAGMA wal_checkpoint(`):
+		vxProtoLog = append(vxProtoLog, vxProtoEvent{kind: "ckpt", lockHeld: vxWriteLockHeld()})
 		if e.onCkpt != nil {
 			e.onCkpt(strings.TrimSuffix(strings.TrimPrefix(ev.SQL, `PRAGMA wal_checkpoint(`), `);`))
 		}
@@ -228,6 +261,8 @@ func vxNewSQLEnv(faults bool) *vxSQLEnv {
 	e := &vxSQLEnv{open: map[int]bool{}, lockTx: map[int]bool{}, faults: faults, pageSize: 4096}
 	vxSQLHandler = e.handle
 	vxSQLFaults = faults
+	vxSQLEnvCur = e
+	vxProtoLog = nil
 	return e
 }
 
@@ -311,6 +346,43 @@ func VxC14Checkpoint() {
 	if err == nil {
 		vx.Assert("read-lock-held-again", db.rtx != nil)
 		vx.Assert("restart-reported-iff-header-changed", restarted == restart)
+	}
+	// The protocol that keeps every commit in some LTX file (C01/C02). A PASSIVE
+	// checkpoint may backfill and - with the following write - restart the WAL;
+	// whatever the application committed before it must have been copied: the
+	// PRAGMA runs while litestream holds the write lock, after a copy made under
+	// that same lock (the sealing copy).
+	sealed := false
+	for _, ev := range vxProtoLog {
+		if ev.kind == "copy" && ev.lockHeld {
+			sealed = true
+		}
+		if ev.kind == "ckpt" && mode == CheckpointModePassive {
+			vx.Assert("passive-checkpoint-runs-under-the-write-lock-after-a-sealing-copy", ev.lockHeld && sealed)
+		}
+	}
+	// The blocking modes cannot be sealed that way; when the WAL was restarted and
+	// commits may have landed between the last copy and the checkpoint (always
+	// possible for TRUNCATE, for FULL/RESTART when the checkpoint reports more
+	// frames than were copied) a boundary snapshot is taken under the write lock.
+	if err == nil && restarted && mode != CheckpointModePassive {
+		var copied int64
+		seenCkpt := false
+		snapUnderLock := false
+		for _, ev := range vxProtoLog {
+			if ev.kind == "copy" && !seenCkpt {
+				copied = ev.frames
+			}
+			if ev.kind == "ckpt" {
+				seenCkpt = true
+			}
+			if ev.kind == "snapshot" && seenCkpt && ev.lockHeld {
+				snapUnderLock = true
+			}
+		}
+		if mode == CheckpointModeTruncate || e.ckptFrames > copied {
+			vx.Assert("unsealed-checkpoint-is-followed-by-a-boundary-snapshot-under-the-write-lock", snapUnderLock)
+		}
 	}
 	vx.ObserveBool("ok", err == nil)
 }
